@@ -623,6 +623,31 @@ pub fn run_case(ctx: &Ctx, idx: u64) -> Vec<CaseOut> {
                             }
                         }
                     }
+                } else if base.fmt == Fmt::Lzip {
+                    // a member cut down to its first k bytes (the rest of the file follows), and k
+                    // foreign bytes in front of the first member: neither is "trailing garbage"
+                    let starts: Vec<usize> = base.members.iter().map(|m| m.0).collect();
+                    for (j, &a) in starts.iter().enumerate() {
+                        let e = starts.get(j + 1).copied().unwrap_or(n);
+                        for k in [1usize, 3, 4, 6, 10, 19, 20, 21, 25, 26] {
+                            if a + k >= e {
+                                continue;
+                            }
+                            let mut c = base.bytes[..a + k].to_vec();
+                            c.extend_from_slice(&base.bytes[e..]);
+                            let which = if j == 0 { "first-member" } else { "later-member" };
+                            let cell = format!("{fmtname}|{}|cut-member|{which}", reader.name());
+                            let agg = per_field.entry(format!("cut-member{which}")).or_insert_with(Agg::new);
+                            judge(agg, &base, reader, &c, "cut-member", &format!("{which}: member {j} cut to its first {k} bytes"), a + k, -((e - a - k) as isize), &cell);
+                        }
+                    }
+                    for k in [1usize, 2, 5, 19, 20, 21, 26, 40] {
+                        let mut c: Vec<u8> = r.bytes(k).into_iter().map(|b| if b == b'L' { b'M' } else { b }).collect();
+                        c.extend_from_slice(&base.bytes);
+                        let cell = format!("{fmtname}|{}|leading-garbage", reader.name());
+                        let agg = per_field.entry("leading-garbage".to_string()).or_insert_with(Agg::new);
+                        judge(agg, &base, reader, &c, "leading-garbage", &format!("{k} foreign bytes in front of the file"), 0, k as isize, &cell);
+                    }
                 }
             }
             _ => {
